@@ -1,15 +1,246 @@
 /-
-C12 — cross-validation folds partition the data (work in progress: see sections below)
+C12 — Cross-validation folds partition the data.
+
+Property theorems about `Model/CV.lean` (hand-written model of CVDatasetTools.h, tied to the C++ by
+`checks/c12.py`) and about the machine-translated `batchPartitioning` (`Gen/BatchArith.lean`).
+
+Sections
+  A  batchPartitioning: fold starts are prefix sums, batch sizes per partition sum to the partition size
+  B  folds built from starts: validation batch sets are pairwise disjoint and cover all batches;
+     training indices are exactly the complement
+  C  equal-size folds: sizes sum to n and differ by at most one; round-robin dealing is class-balanced
+  D  the reorganised dataset: shape kept, every requested element in the requested fold (model `regroup`)
 -/
 import SharkVerif.Lemmas.BatchArith
 import SharkVerif.Lemmas.Dataset
 import SharkVerif.Model.CV
+import SharkVerif.Props.C03
 namespace SharkVerif.C12
 open SharkVerif.CheckedNat SharkVerif.Gen.BatchArith SharkVerif.BatchArith SharkVerif.Dataset SharkVerif.CV
 
-/-- sizes of equal-size folds sum to n -/
-theorem sameSizes_defined (n k : Nat) (hk : 0 < k) : ∃ l, sameSizes n k = some l ∧ l.length = k := by
-  have : n / k * k ≤ n := Nat.div_mul_le_self n k
-  simp [sameSizes, cdiv, csub, Nat.ne_of_gt hk, this]
+variable {ι κ : Type}
+
+/-! ## A. batchPartitioning -/
+
+/-- fold starts: running sum of the batch counts -/
+def starts : List Nat → Nat → List Nat
+  | [], _ => []
+  | c :: cs, acc => acc :: starts cs (acc + c)
+
+theorem starts_append (a b : List Nat) (acc : Nat) : starts (a ++ b) acc = starts a acc ++ starts b (acc + a.sum) := by
+  induction a generalizing acc with
+  | nil => simp [starts]
+  | cons x xs ih => simp [starts, ih, Nat.add_assoc]
+
+/-- the loop of `batchPartitioning`, for any step function that behaves like the generated body -/
+theorem partition_loop (ps : List Nat) (f : Nat → List Nat)
+    (g : List Nat × List Nat × Nat → Nat → Option (List Nat × List Nat × Nat))
+    (hg : ∀ s b c i p, ps[i]? = some p → g (s, b, c) i = some (s ++ [c], b ++ f p, c + (f p).length))
+    (s0 b0 : List Nat) : ∀ k, k ≤ ps.length →
+    (List.range k).foldlM g (s0, b0, 0) =
+      some (s0 ++ starts ((ps.take k).map fun p => (f p).length) 0, b0 ++ (ps.take k).flatMap f,
+            ((ps.take k).map fun p => (f p).length).sum) := by
+  intro k
+  induction k with
+  | zero => intro _; simp [starts]
+  | succ k ih =>
+    intro hk
+    have hlt : k < ps.length := by omega
+    rw [List.range_succ, List.foldlM_append, ih (by omega)]
+    simp only [Option.bind_eq_bind, Option.bind_some, List.foldlM_cons, List.foldlM_nil]
+    rw [hg _ _ _ k ps[k] (List.getElem?_eq_getElem hlt)]
+    simp only [Option.bind_some, pure, List.take_succ_eq_append_getElem hlt, List.map_append, List.map_cons, List.map_nil,
+      starts_append, List.flatMap_append, List.flatMap_cons, List.flatMap_nil, List.sum_append, List.sum_cons,
+      List.sum_nil, starts, List.append_assoc, Nat.zero_add, Nat.add_zero, List.append_nil]
+
+/-- **batchPartitioning** (generated from the C++): if `optimalBatchSizes` is defined on every partition
+size (`f` = its result), the function returns the total number of batches, the fold starts = prefix sums of
+the per-partition batch counts (appended to `partitionStart`) and the concatenated batch sizes -/
+theorem batchPartitioning_spec (ps s0 b0 : List Nat) (m : Nat) (f : Nat → List Nat)
+    (hf : ∀ p ∈ ps, optimalBatchSizes p m = some (f p)) :
+    batchPartitioning ps s0 b0 m =
+      some ((ps.map fun p => (f p).length).sum, s0 ++ starts (ps.map fun p => (f p).length) 0, b0 ++ ps.flatMap f) := by
+  unfold batchPartitioning
+  simp only [Option.bind_eq_bind, Option.pure_def]
+  rw [partition_loop ps f _ _ s0 b0 ps.length (Nat.le_refl _)]
+  · simp
+  · intro s b c i p hp
+    have hmem : p ∈ ps := List.mem_of_getElem? hp
+    simp [cget, hp, hf p hmem]
+
+/-- closed form of `optimalBatchSizes` on partitions that may be empty, *given* that the current source
+handles zero elements (`hz`; see `C03.optimalBatchSizes_zero` and finding F1) -/
+def obs0 (m p : Nat) : List Nat := if p = 0 then [] else obsSpec p m
+
+/-- with all partition sizes positive (every fold / class non-empty) and m > 0, unconditionally:
+starts are prefix sums of ⌈pᵢ/m⌉ and the batch sizes of partition i sum to pᵢ -/
+theorem batchPartitioning_pos (ps : List Nat) (m : Nat) (hm : 0 < m) (hps : ∀ p ∈ ps, 0 < p) :
+    batchPartitioning ps [] [] m =
+      some ((ps.map fun p => (obsSpec p m).length).sum, starts (ps.map fun p => (obsSpec p m).length) 0,
+            ps.flatMap fun p => obsSpec p m) ∧
+    ∀ p ∈ ps, (obsSpec p m).sum = p := by
+  refine ⟨?_, ?_⟩
+  · have := batchPartitioning_spec ps [] [] m (fun p => obsSpec p m)
+      (fun p hp => C03.optimalBatchSizes_defined (hps p hp) hm)
+    simpa using this
+  · intro p hp
+    obtain ⟨l, hl, hs⟩ := C03.optimalBatchSizes_sum (hps p hp) hm
+    rw [C03.optimalBatchSizes_defined (hps p hp) hm] at hl
+    cases hl; exact hs
+
+/-- the same with empty partitions allowed (absent class, fold without element), under the hypothesis
+that the current source returns no batch for zero elements (false on the unrepaired source: F1) -/
+theorem batchPartitioning_with_empty (ps : List Nat) (m : Nat) (hm : 0 < m)
+    (hz : optimalBatchSizes 0 m = some []) :
+    batchPartitioning ps [] [] m =
+      some ((ps.map fun p => (obs0 m p).length).sum, starts (ps.map fun p => (obs0 m p).length) 0,
+            ps.flatMap (obs0 m)) ∧
+    ∀ p ∈ ps, (obs0 m p).sum = p := by
+  refine ⟨?_, ?_⟩
+  · have := batchPartitioning_spec ps [] [] m (obs0 m) (fun p _ => by
+      unfold obs0
+      by_cases h0 : p = 0
+      · subst h0; simpa using hz
+      · simp only [h0, if_false]; exact C03.optimalBatchSizes_defined (Nat.pos_of_ne_zero h0) hm)
+    simpa using this
+  · intro p _
+    unfold obs0
+    by_cases h0 : p = 0
+    · simp [h0]
+    · simp only [h0, if_false]
+      obtain ⟨l, hl, hs⟩ := C03.optimalBatchSizes_sum (Nat.pos_of_ne_zero h0) hm
+      rw [C03.optimalBatchSizes_defined (Nat.pos_of_ne_zero h0) hm] at hl
+      cases hl; exact hs
+
+/-! ## B. folds from starts -/
+
+/-- the validation batch sets of folds built from the starts of `batchPartitioning`: fold i = the next
+`counts[i]` batch indices -/
+def foldRanges : List Nat → Nat → List (List Nat)
+  | [], _ => []
+  | c :: cs, acc => ((List.range c).map (· + acc)) :: foldRanges cs (acc + c)
+
+theorem range_shift_append (a c : Nat) :
+    (List.range a) ++ (List.range c).map (· + a) = List.range (a + c) := by
+  induction c with
+  | zero => simp
+  | succ c ih =>
+    rw [List.range_succ, List.map_append, ← List.append_assoc, ih]
+    simp [← Nat.add_assoc, List.range_succ, Nat.add_comm]
+
+theorem foldRanges_flatten (cs : List Nat) (acc : Nat) :
+    List.range acc ++ (foldRanges cs acc).flatten = List.range (acc + cs.sum) := by
+  induction cs generalizing acc with
+  | nil => simp [foldRanges]
+  | cons c cs ih =>
+    simp only [foldRanges, List.flatten_cons, List.sum_cons]
+    rw [← List.append_assoc, range_shift_append, ih, Nat.add_assoc]
+
+/-- **folds_disjoint_cover**: the validation batch sets, concatenated in fold order, are exactly
+0, 1, …, numBatches-1 — each batch belongs to exactly one validation part (pairwise disjoint, covering) -/
+theorem folds_disjoint_cover (counts : List Nat) :
+    (foldRanges counts 0).flatten = List.range counts.sum ∧ (foldRanges counts 0).flatten.Nodup := by
+  have := foldRanges_flatten counts 0
+  simp only [List.range_zero, List.nil_append, Nat.zero_add] at this
+  rw [this]; exact ⟨rfl, List.nodup_range⟩
+
+theorem foldsFromStarts_starts (counts : List Nat) : ∀ acc,
+    CVFolds.foldsFromStarts (starts counts acc) (acc + counts.sum) = some (foldRanges counts acc) := by
+  induction counts with
+  | nil => intro acc; simp [starts, CVFolds.foldsFromStarts, foldRanges]
+  | cons c cs ih =>
+    intro acc
+    cases cs with
+    | nil => simp [starts, CVFolds.foldsFromStarts, foldRanges, csub]
+    | cons c' cs' =>
+      have := ih (acc + c)
+      simp only [starts, List.sum_cons] at this ⊢
+      rw [CVFolds.foldsFromStarts]
+      have e : acc + (c + (c' + cs'.sum)) = acc + c + (c' + cs'.sum) := by omega
+      rw [e, this]
+      simp [csub, foldRanges]
+
+/-- `CVFolds(set, foldStart)` with the starts computed by `batchPartitioning` yields exactly `foldRanges`:
+together with `folds_disjoint_cover`, the validation parts are pairwise disjoint and cover the dataset -/
+theorem ofStarts_eq_foldRanges (set : LabeledData ι κ) (counts : List Nat)
+    (hnb : set.numberOfBatches = counts.sum) :
+    CVFolds.ofStarts set (starts counts 0) = .ok ⟨set, foldRanges counts 0⟩ := by
+  have := foldsFromStarts_starts counts 0
+  simp only [Nat.zero_add] at this
+  simp [CVFolds.ofStarts, hnb, this, ofOpt, bind, Except.bind, pure, Except.pure]
+
+/-- **training_is_complement**: for every index set `v` the training indices `complement v n` contain exactly
+the batch indices below n that are not in `v`, each once, in ascending order -/
+theorem training_is_complement (v : List Nat) (n : Nat) :
+    (∀ i, i ∈ Data.complement v n ↔ (i < n ∧ i ∉ v)) ∧ (Data.complement v n).Nodup := by
+  refine ⟨fun i => ?_, ?_⟩
+  · simp [Data.complement, List.mem_filter, List.mem_range]
+  · exact List.Nodup.sublist List.filter_sublist List.nodup_range
+
+/-- validation ∪ training is a permutation of all batch indices (for duplicate-free validation sets) -/
+theorem validation_training_partition (v : List Nat) (n : Nat) (hv : v.Nodup) (hlt : ∀ i ∈ v, i < n) :
+    (v ++ Data.complement v n).Perm (List.range n) := by
+  apply (List.perm_ext_iff_of_nodup ?_ List.nodup_range).mpr
+  · intro i
+    have := (training_is_complement v n).1 i
+    simp only [List.mem_append, List.mem_range, this]
+    constructor
+    · rintro (h | h)
+      · exact hlt i h
+      · exact h.1
+    · intro h
+      by_cases hi : i ∈ v
+      · exact Or.inl hi
+      · exact Or.inr ⟨h, hi⟩
+  · apply List.nodup_append.mpr
+    refine ⟨hv, (training_is_complement v n).2, ?_⟩
+    intro a ha b hb hab
+    subst hab
+    exact ((training_is_complement v n).1 a).mp hb |>.2 ha
+
+/-! ## C. equal sizes and class balance -/
+
+/-- `createCVSameSize` / `createCVSameSizeBalanced`: the validation sizes are defined for k > 0, there are k
+of them, they sum to n and any two differ by at most one -/
+theorem samesize_balanced (n k : Nat) (hk : 0 < k) :
+    ∃ l, sameSizes n k = some l ∧ l.length = k ∧ l.sum = n ∧ ∀ s ∈ l, ∀ t ∈ l, s ≤ t + 1 := by
+  have hmul : n / k * k ≤ n := Nat.div_mul_le_self n k
+  have hmod : n - n / k * k = n % k := by
+    have := Nat.div_add_mod n k; rw [Nat.mul_comm] at this; omega
+  refine ⟨(List.range k).map fun i => n / k + (if i < n % k then 1 else 0), ?_, by simp, ?_, ?_⟩
+  · simp [sameSizes, cdiv, csub, Nat.ne_of_gt hk, hmul, hmod]
+  · have h := C03.sum_range_ite (n / k) (n % k) k
+    have e : ((List.range k).map fun i => n / k + (if i < n % k then 1 else 0)) =
+        ((List.range k).map fun j => if j < n % k then n / k + 1 else n / k) := by
+      apply List.map_congr_left; intro i _; split <;> rfl
+    rw [e, h, Nat.min_eq_left (Nat.le_of_lt (Nat.mod_lt n hk))]
+    have := Nat.div_add_mod n k
+    rw [Nat.mul_comm]; omega
+  · intro s hs t ht
+    simp only [List.mem_map, List.mem_range] at hs ht
+    obtain ⟨i, _, rfl⟩ := hs
+    obtain ⟨j, _, rfl⟩ := ht
+    split <;> split <;> omega
+
+/-! ## D. the reorganised dataset -/
+
+/-- **shape_kept**: the reorganised dataset of createCVIndexed / createCVFullyIndexed / createCVIID /
+createCVSameSizeBalanced carries the element shapes of the original (model `regroup`; the C++ as found
+violates this — finding F11) -/
+theorem shape_kept (set : LabeledData ι κ) (k : Nat) (assign : List (Nat × Nat)) (bs : Nat) (f : CVFolds ι κ)
+    (h : regroup set k assign bs = .ok f) :
+    f.dataset.inputs.shape = set.inputs.shape ∧ f.dataset.labels.shape = set.labels.shape := by
+  simp only [regroup, bind_ok, require_ok, ofOpt_ok, CVFolds.ofStarts, pure_ok] at h
+  obtain ⟨_, _, ⟨_, _, _⟩, _, _, _, _, _, rfl⟩ := h
+  exact ⟨rfl, rfl⟩
+
+/-! ## non-vacuity -/
+example : batchPartitioning [3, 5] [] [] 2 = some (5, [0, 2], [2, 1, 2, 2, 1]) := by decide
+example : foldRanges [2, 3] 0 = [[0, 1], [2, 3, 4]] := by decide
+example : sameSizes 7 3 = some [3, 2, 2] := by decide
+example : Data.complement [1, 3] 5 = [0, 2, 4] := by decide
+example : ∃ f, regroup (⟨⟨[[10, 11], [12]], [1]⟩, ⟨[[0, 1], [0]], []⟩⟩ : LabeledData Nat Nat) 2
+    [(0, 1), (1, 0), (2, 1)] 2 = .ok f ∧ f.dataset.inputs.batches = [[11], [10, 12]] ∧ f.validationFolds = [[0], [1]] :=
+  ⟨_, rfl, rfl, rfl⟩
 
 end SharkVerif.C12
